@@ -80,14 +80,14 @@ Theorem C20_accepted_touches_only_own : forall e s a m s',
 Proof. exact accepted_touches_only_own. Qed.
 Print Assumptions C20_accepted_touches_only_own.
 
-Theorem C20_wf_invariant : forall e s0 h, empty_tables s0 -> wf (run e s0 h).
-Proof. intros e s0 h H. apply run_wf, empty_wf, H. Qed.
+Theorem C20_wf_invariant : forall s0 h, empty_tables s0 -> wf (run s0 h).
+Proof. intros s0 h H. apply run_wf, empty_wf, H. Qed.
 Print Assumptions C20_wf_invariant.
 
 (* ... hence after every history from empty tables *)
-Theorem C20_frame_after_any_history : forall e s0 h a m s',
-  empty_tables s0 -> step e (run e s0 h) a m = (s', Ok) -> frame a m (run e s0 h) s'.
-Proof. intros e s0 h a m s' H0 H. apply (accepted_touches_only_own e); [apply run_wf, empty_wf, H0|exact H]. Qed.
+Theorem C20_frame_after_any_history : forall s0 h e a m s',
+  empty_tables s0 -> step e (run s0 h) a m = (s', Ok) -> frame a m (run s0 h) s'.
+Proof. intros s0 h e a m s' H0 H. apply (accepted_touches_only_own e); [apply run_wf, empty_wf, H0|exact H]. Qed.
 Print Assumptions C20_frame_after_any_history.
 
 (* consequences: no message ever changes the owner of a lock; a position changes hands only through a
